@@ -6,7 +6,8 @@ a = sys.argv[1:]
 dirs = sorted(glob.glob(a[0]))
 tier = a[a.index("--tier") + 1] if "--tier" in a else "quick"
 jobs = int(a[a.index("--jobs") + 1]) if "--jobs" in a else 4
-extra = {"C06-1": ["C14"], "C06-2": ["C09"], "C06-R2-1": ["C14"], "C13-R2-1": ["C09"]}
+extra = {"C06-1": ["C14"], "C06-2": ["C09"], "C06-R2-1": ["C14"], "C13-R2-1": ["C09"], "C17-R3-2": ["C13"],
+         "C17-R4-2": ["C13"], "C02-R4-1": ["C01", "C12"], "C05-R4-2": ["C08"], "C06-R4-1": ["C14"], "C06-R4-2": ["C05", "C08"], "C13-R4-1": ["C12"], "C09-R4-2": ["C07"], "C12-R4-2": ["C05"], "C18-R4-2": ["C01"]}
 import queue
 slots = queue.Queue()
 for i in range(jobs):
@@ -32,5 +33,5 @@ for name, r in res:
     print(name, r.get("detected_by"), r.get("error", ""), {c: x["other"] for c, x in r.get("checks", {}).items() if x.get("other")})
     if not r.get("detected_by"):
         missed.append(name)
-json.dump(dict(res), open("/tmp/seedpar_last.json", "w"), indent=1)
+json.dump(dict(res), open(os.environ.get("SEEDPAR_OUT", "/tmp/seedpar_last.json"), "w"), indent=1)
 print("detected %d / %d; missed: %s" % (len(res) - len(missed), len(res), missed))
